@@ -116,6 +116,138 @@ theorem C07_sep_buffered_no_false_reject (sep : Bytes) (cap : Nat) (ke : Bool) (
     BRU.spec sep cap ke (p ++ sep ++ rest) = .done (if ke then p ++ sep else p) rest :=
   BRU.spec_frame sep cap ke hsep p rest hfirst
 
+-- ==== BEGIN generic framers ====
+section GenericFramers
+open GenericFr
+
+theorem GenericFr.refDrain_held_le (load : Bytes → LoadRes) (limit : Nat) (fuel : Nat) (b : Bytes)
+    (hb : b.length ≤ limit) : (refDrain (spec load limit) fuel b).1.length ≤ limit := by
+  induction fuel generalizing b with
+  | zero => exact hb
+  | succ fuel ih =>
+    unfold refDrain
+    by_cases he : b.isEmpty
+    · simp [he]
+    · simp only [he, Bool.false_eq_true, if_false]
+      cases hs : spec load limit b with
+      | need => exact hb
+      | done d r =>
+        rw [spec_eq_specU load limit b hb] at hs
+        have := specU_rest_le load b d r hs
+        exact ih r (by omega)
+      | fail r =>
+        unfold spec at hs
+        have : ¬ b.length > limit := by omega
+        simp only [this, if_false] at hs
+        unfold specU at hs
+        cases hl : load b <;> rw [hl] at hs <;> cases hs
+
+theorem GenericFr.refRecv_held_le (load : Bytes → LoadRes) (limit : Nat) (h c : Bytes) :
+    (refRecv (spec load limit) h c).1.length ≤ limit := by
+  unfold refRecv
+  by_cases he : (h ++ c).isEmpty
+  · simp [he]
+  · simp only [he, Bool.false_eq_true, if_false]
+    by_cases hl : (h ++ c).length > limit
+    · have : spec load limit (h ++ c) = .fail [] := by unfold spec; rw [if_pos hl]
+      rw [this]
+      exact GenericFr.refDrain_held_le load limit _ [] (by simp)
+    · have hle : (h ++ c).length ≤ limit := by omega
+      cases hs : spec load limit (h ++ c) with
+      | need => exact hle
+      | done d r =>
+        have hs' := hs
+        rw [spec_eq_specU load limit _ hle] at hs'
+        have := specU_rest_le load _ d r hs'
+        exact GenericFr.refDrain_held_le load limit _ r (by omega)
+      | fail r =>
+        unfold spec at hs
+        simp only [hl, if_false] at hs
+        unfold specU at hs
+        cases hl2 : load (h ++ c) <;> rw [hl2] at hs <;> cases hs
+
+theorem GenericFr.refRun_held_le (load : Bytes → LoadRes) (limit : Nat) (cs : List Bytes) (h : Bytes)
+    (hh : h.length ≤ limit) : (refRun (spec load limit) h cs).1.length ≤ limit := by
+  induction cs generalizing h with
+  | nil => exact hh
+  | cons c cs ih =>
+    simp only [refRun]
+    exact ih _ (GenericFr.refRecv_held_le load limit h c)
+
+/-- **C07, file-based framers: bound** — for EVERY loader (no law needed), every peer and every chunking:
+    (1) looking at more than `limit` accumulated bytes raises the size error, at that very read, and drops them all;
+    (2) between reads the copying consumer retains at most `limit` bytes — hence at most `limit` + the read in progress
+        while a read is processed;
+    (3) the buffered path allocates `min(sizehint, limit) ≤ limit` bytes, never more. -/
+theorem C07_generic_bound (load : Bytes → LoadRes) (limit : Nat) :
+    (∀ b : Bytes, b.length > limit → spec load limit b = .fail []) ∧
+    (∀ s c, GenericFr.Inv s c → ∀ chunk : Bytes, (c ++ chunk).length > limit → feed load limit s chunk = .fail []) ∧
+    (∀ chunks : List Bytes,
+      (Consumer.held (·.buf) (Consumer.run GenericFr.init (feed load limit) Consumer.new chunks).1).length ≤ limit) ∧
+    (∀ hint, bufCap limit hint ≤ limit ∧ bufCap limit hint ≤ hint) := by
+  refine ⟨?_, ?_, ?_, ?_⟩
+  · intro b hb; unfold spec; rw [if_pos hb]
+  · intro s c hinv chunk hlen
+    unfold feed gfeed
+    rw [appended_inv s c chunk hinv]
+    unfold attempt checkLimit
+    rw [if_pos hlen]
+    simp only [GRes.toRes, limitRemainder_all]
+  · intro chunks
+    have R := feed_refines load limit
+    have hsim := Consumer.run_ref R chunks Consumer.new [] (Or.inl ⟨rfl, rfl⟩)
+    have hle := GenericFr.refRun_held_le load limit chunks [] (by simp)
+    have heq : Consumer.held (·.buf) (Consumer.run GenericFr.init (feed load limit) Consumer.new chunks).1
+        = (refRun (spec load limit) [] chunks).1 := by
+      rcases hsim.2 with ⟨hfr, hbuf⟩ | ⟨s, hfr, hbuf, hinv, _⟩
+      · simp [Consumer.held, hfr, hbuf]
+      · simp only [Consumer.held, hfr]
+        exact hinv.1
+    rw [heq]; exact hle
+  · intro hint; unfold bufCap; omega
+
+/-- **C07, file-based framers: no false rejection.**  Frames with `|frame| + largest read ≤ limit + 1` — in particular
+    those of the table row "file-based / generic: `|frame| + largest read ≤ limit`" — are never rejected for their size,
+    whatever the chunking, on both receive paths.  The bound is exact: with `|frame| + read = limit + 2` a read arriving
+    when all but the last byte of the frame is held accumulates `limit + 1` bytes. -/
+theorem C07_generic_no_false_reject (load : Bytes → LoadRes) (S : Stable load) (P : Progress load)
+    (limit m hint : Nat) (hlimit : 0 < limit) (hhint : 0 < hint)
+    (fs : List Bytes) (hfs : ∀ f ∈ fs, IsFrame load f) :
+    (∀ chunks : List Bytes, (∀ f ∈ fs, f.length + m ≤ limit + 1) → (∀ c ∈ chunks, c.length ≤ m) → chunks.flatten = fs.flatten →
+      NoLimit (Consumer.run GenericFr.init (feed load limit) Consumer.new chunks).2) ∧
+    (∀ (fills : List Bytes) (r : BufConsumer GenericFr.State × List Item),
+      (∀ f ∈ fs, f.length + bufCap limit hint ≤ limit + 1) → fills.flatten = fs.flatten →
+      BufConsumer.runFills GenericFr.init 0 (bufCap limit hint) (bfeed load limit) BufConsumer.new fills = some r →
+      NoLimit r.2) := by
+  have hno : NoLimit (fs.map (frameItem load)) := by
+    intro it hit
+    simp only [List.mem_map, frameItem] at hit
+    rcases hit with ⟨f, _, rfl⟩
+    intro hc; cases hc
+  constructor
+  · intro chunks hsafe hm hcut
+    rw [(GenericFr.copy_run_frames load S P limit m fs hfs hsafe chunks hm hcut).1]
+    exact hno
+  · intro fills r hsafe hcut hrun
+    rw [(GenericFr.buffered_run_frames load S P limit hint hlimit hhint fs hfs hsafe fills hcut r hrun).1]
+    exact hno
+
+/-- **The table row is tight, and acceptance just outside depends on the chunking** (toy loader, limit 8): a complete
+    frame of 8 bytes ≤ limit followed by a 2-byte frame.  Read frame by frame, both are delivered; when the first read
+    also carries the first byte of the next frame (9 bytes accumulated > 8) the complete frame IS rejected — the check is
+    on everything accumulated — and everything received so far is dropped (third line: the same on the buffered path, where
+    one fill cannot exceed the 8-byte buffer but held bytes + a fill can). -/
+example : IsFrameD toyLoad [7, 1, 2, 3, 4, 5, 6, 7] ∧ IsFrameD toyLoad [1, 9] ∧
+    (Consumer.run GenericFr.init (feed toyLoad 8) Consumer.new [[7, 1, 2, 3, 4, 5, 6, 7], [1, 9]]).2
+      = [.frame (okTag :: [7, 1, 2, 3, 4, 5, 6, 7]), .frame (okTag :: [1, 9])] ∧
+    (Consumer.run GenericFr.init (feed toyLoad 8) Consumer.new [[7, 1, 2, 3, 4, 5, 6, 7, 1], [9]]).2 = [.limit] ∧
+    (BufConsumer.runFills GenericFr.init 0 (bufCap 8 16) (bfeed toyLoad 8) BufConsumer.new
+        [[7, 1, 2, 3], [4, 5, 6, 7, 1], [9]]).map (·.2) = some [.limit] := by
+  decide +kernel
+
+end GenericFramers
+-- ==== END generic framers ====
+
 end EasyNet
 
 -- ==== BEGIN raw JSON framer ====
